@@ -5,6 +5,11 @@ import os, itertools, json
 import vlib, ukv_common as U
 
 
+# header variants: every combination of empty / non-empty comment and descriptor block, a foreign magic, a long comment
+HDRS = [dict(), dict(h2=b"a comment", b0=b"\x00\x01descr"), dict(h1=b"ML10Library", h2=b"x" * 300),
+        dict(h2=b"only a comment"), dict(b0=b"only a descriptor\x00")]
+
+
 def exhaustive_histories(depth):
     v1, v2 = U.Val(3, 2), U.Val(9, 0)
     alpha = [("open", 0, "r"), ("open", 0, "a"), ("close", 0), ("put", 0, b"a", v1), ("put", 0, b"b", v2),
@@ -32,12 +37,12 @@ def run(ctx, rep):
     for _ in range(nrand):
         # extended operation set: items()/values(), h[k] / h[k] = v / `with h:` spellings, pickled handle copies
         hists.append((U.gen_history(ctx.rng, nh=3, maxlen=25, big=True, views=True), 3))
-    hdrs = [dict(), dict(h2=b"a comment", b0=b"\x00\x01descr"), dict(h1=b"ML10Library", h2=b"x" * 300)]
+    hdrs = HDRS
     cases, vcases, meta = [], [], []
     for n, (h, nh) in enumerate(hists):
-        d = U.drive(path, h, nh=nh, **hdrs[n % 3])
+        d = U.drive(path, h, nh=nh, **hdrs[n % len(HDRS)])
         (cases if n < nexh else vcases).append(U.case_coq(d, nh) if n < nexh else U.vcase_coq(d, nh))
-        meta.append((h, nh, n % 3))
+        meta.append((h, nh, n % len(HDRS)))
         for o in h:
             if len(o) > 2 and o[-1] in ("item", "enter", "exit"):
                 rep.count("spelling:" + o[0] + ":" + o[-1])
@@ -48,7 +53,7 @@ def run(ctx, rep):
         for o, r in zip(d["ops"], d["results"]):
             rep.count("op:" + o.split()[0]); rep.count("res:" + r.strip("()").split()[0] + (":" + r.strip("()").split()[1] if "RErr" in r else ""))
         for sig, text in d["oracle"]:
-            rep.violate(sig, text, {"ops": [_ser(o) for o in h], "nh": nh, "hdr": n % 3})
+            rep.violate(sig, text, {"ops": [_ser(o) for o in h], "nh": nh, "hdr": n % len(HDRS)})
     bad = vlib.run_shards(ctx, rep, "c02", U.HEADER, "check_case", cases, shard=300, case_type="case")
     vbad = vlib.run_shards(ctx, rep, "c02v", U.HEADER_V, "check_vcase", vcases, shard=300, case_type="vcase")
     if bad is not None and vbad is not None:
@@ -118,7 +123,6 @@ def replay(ctx, data):
         d = U.cdrive(os.path.join(ctx.sub("ukv"), "c.ukv"), [_deser(o, True) for o in data["ops"]], [tuple(x) for x in data["cfg"]])
         print("ops:", d["ops"]); print("results:", d["results"])
         return [vlib.Violation(s, t) for s, t in d["oracle"]]
-    hdrs = [dict(), dict(h2=b"a comment", b0=b"\x00\x01descr"), dict(h1=b"ML10Library", h2=b"x" * 300)]
-    d = U.drive(os.path.join(ctx.sub("ukv"), "t.ukv"), [_deser(o) for o in data["ops"]], nh=data["nh"], **hdrs[data.get("hdr", 0)])
+    d = U.drive(os.path.join(ctx.sub("ukv"), "t.ukv"), [_deser(o) for o in data["ops"]], nh=data["nh"], **HDRS[data.get("hdr", 0)])
     print("ops:", d["ops"]); print("results:", d["results"])
     return [vlib.Violation(s, t) for s, t in d["oracle"]]
